@@ -35,19 +35,14 @@ def ry(a: float) -> np.ndarray:
 def pointing_pixels(nside: int, theta: np.ndarray, phi: np.ndarray, psi: np.ndarray, dirs: np.ndarray) -> tuple[np.ndarray, np.ndarray]:
     """pix[d, m, t] of the direction dirs[:, d, m] rotated by Rz(phi_t) Ry(theta_t) Rz(psi_t), and
     a mask of boundary-ambiguous entries."""
-    ndet, ndir = dirs.shape[1:]
-    nt = len(theta)
-    pix = np.empty((ndet, ndir, nt), dtype=np.int64)
-    amb = np.zeros((ndet, ndir, nt), dtype=bool)
-    for t in range(nt):
-        R = rz(phi[t]) @ ry(theta[t]) @ rz(psi[t])
-        v = np.einsum('ij,jdm->idm', R, dirs)
-        p = hp.vec2pix(nside, v[0], v[1], v[2])
-        pix[:, :, t] = p
-        for e in itertools.product((-1e-9, 1e-9), repeat=3):
-            w = v + np.array(e)[:, None, None]
-            amb[:, :, t] |= hp.vec2pix(nside, w[0], w[1], w[2]) != p
-    return pix, amb
+    R = np.stack([rz(phi[t]) @ ry(theta[t]) @ rz(psi[t]) for t in range(len(theta))])      # (nt, 3, 3)
+    v = np.einsum('tij,jdm->idmt', R, dirs)                                                # (3, ndet, ndir, nt)
+    pix = hp.vec2pix(nside, v[0], v[1], v[2])
+    amb = np.zeros(pix.shape, dtype=bool)
+    for e in itertools.product((-1e-9, 1e-9), repeat=3):
+        w = v + np.array(e)[:, None, None, None]
+        amb |= hp.vec2pix(nside, w[0], w[1], w[2]) != pix
+    return pix.astype(np.int64), amb
 
 
 def make_inputs(rng: Any, nside: int, ndet: int, ndir: int, nt: int, how: str) -> tuple[Sampling, DetectorArray, np.ndarray, np.ndarray, np.ndarray, np.ndarray]:
@@ -85,13 +80,15 @@ def case(rng: Any, ctx: Ctx, index: int) -> None:
     ndet = int(rng.integers(1, 7))
     ndir = 1 if mode == 'acquisition' else int(rng.integers(1, 4))
     nt = int(rng.integers(1, 41))
+    if index % 9 == 4:
+        nt = int(gen.pick(rng, [1025, 1500, 2049, 3000]))   # long scans (more samples than any internal chunk size)
     how = gen.pick(rng, ['uniform', 'wrap', 'poles', 'random-sampling'])
     land = HealpixLandscape(nside, kind, np.float64)
     samp, det, theta, phi, psi, dirs = make_inputs(rng, nside, ndet, ndir, nt, how)
     pix, amb = pointing_pixels(nside, theta, phi, psi, dirs)
     if ndir == 1:
         pix, amb = pix[:, 0, :], amb[:, 0, :]
-    key = f'{mode}:nside{nside}:{kind}:ndet{min(ndet, 2)}:ndir{ndir}:{how}'
+    key = f'{mode}:nside{nside}:{kind}:ndet{min(ndet, 2)}:ndir{ndir}:{how}:{"long" if nt > 1024 else "short"}'
     LOG.case_key(key, len(np.unique(pix)) >= 2)
     sky = land.normal(jax.random.PRNGKey(int(rng.integers(1 << 30))))
     m = stokes_np(sky)
@@ -111,12 +108,12 @@ def case(rng: Any, ctx: Ctx, index: int) -> None:
             LOG.count('C16.boundary-ambiguous', nside, int(amb.sum()))
             for c in kind:
                 if got[c].shape != exp[c].shape:
-                    LOG.violation('C16', 'C16.projection', 'projection/shape', f'{got[c].shape} vs {exp[c].shape}', key=key)
+                    LOG.violation('C16', 'C16.projection', 'projection/shape', f'{got[c].shape} vs {exp[c].shape}', config=key)
                     return
                 bad = ~np.isclose(got[c], exp[c], rtol=1e-9, atol=1e-10) & ~amb
                 if bad.any():
                     LOG.violation('C16', 'C16.projection', f'projection/values/{c}/{"multi-dir" if ndir > 1 else "one-dir"}',
-                                  f'{int(bad.sum())} of {bad.size} samples differ from the pointing model', key=key)
+                                  f'{int(bad.sum())} of {bad.size} samples differ from the pointing model', config=key)
                     return
         guarded('C16.projection', judge)
 
@@ -131,13 +128,13 @@ def case(rng: Any, ctx: Ctx, index: int) -> None:
                 for c in kind:
                     if not np.allclose(got[c], counts * m[c], rtol=1e-9, atol=1e-9):
                         LOG.violation('C16', 'C16.ptp', f'PtP/{name}/{"multi-dir" if ndir > 1 else "one-dir"}',
-                                      'P.T @ P does not act as the diagonal of hit counts', key=key, result=dense.skeleton(op))
+                                      'P.T @ P does not act as the diagonal of hit counts', config=key, result=dense.skeleton(op))
                         return
                 if npix * len(kind) <= 48:
                     mat = np.asarray(op.as_matrix(), dtype=np.float64)
                     LOG.evaluated('C16.ptp-as_matrix')
                     if not np.allclose(mat, np.diag(np.tile(counts, len(kind))), atol=1e-9):
-                        LOG.violation('C16', 'C16.ptp-as_matrix', f'PtP/{name}/as_matrix', 'as_matrix is not diag(hit counts) per Stokes component', key=key)
+                        LOG.violation('C16', 'C16.ptp-as_matrix', f'PtP/{name}/as_matrix', 'as_matrix is not diag(hit counts) per Stokes component', config=key)
                         return
             LOG.count('C16.ptp.reduced-to', dense.skeleton((P.T @ P).reduce()))
         guarded('C16.ptp', judge_ptp)
@@ -152,12 +149,12 @@ def case(rng: Any, ctx: Ctx, index: int) -> None:
             LOG.evaluated('C16.acquisition', pix.size)
             LOG.count('C16.acquisition.form', dense.skeleton(H))
             if got.shape != exp.shape:
-                LOG.violation('C16', 'C16.acquisition', 'acquisition/shape', f'{got.shape} vs {exp.shape}', key=key)
+                LOG.violation('C16', 'C16.acquisition', 'acquisition/shape', f'{got.shape} vs {exp.shape}', config=key)
                 return
             bad = ~np.isclose(got, exp, rtol=1e-9, atol=1e-10) & ~amb
             if bad.any():
                 LOG.violation('C16', 'C16.acquisition', f'acquisition/values/{kind}', f'{int(bad.sum())} of {bad.size} samples differ from (I + Q cos 2psi - U sin 2psi)/2',
-                              key=key, form=dense.skeleton(H))
+                              config=key, form=dense.skeleton(H))
                 return
             # identical before reduction: rebuild the unreduced chain from the same parts
             from furax.operators.hwp import HWPOperator
@@ -166,7 +163,7 @@ def case(rng: Any, ctx: Ctx, index: int) -> None:
             unreduced = LinearPolarizerOperator.create((len(det), len(samp)), stokes=kind) @ HWPOperator(proj.out_structure()) @ proj
             got_u = np.asarray(unreduced.mv(sky), dtype=np.float64)
             if not np.allclose(got_u, got, rtol=1e-10, atol=1e-12):
-                LOG.violation('C16', 'C16.acquisition', 'acquisition/reduced-vs-unreduced', 'reduction changed the acquisition', key=key)
+                LOG.violation('C16', 'C16.acquisition', 'acquisition/reduced-vs-unreduced', 'reduction changed the acquisition', config=key)
         guarded('C16.acquisition', judge_acq)
     if how == 'random-sampling':
         LOG.evaluated('C16.random-sampling')
